@@ -148,7 +148,7 @@ func (p *Prog) relevantFacts(o *Obligation) []*Term {
 func (p *Prog) BuildQuery(o *Obligation, getModel []string) string {
 	asserts := append([]*Term{}, p.relevantFacts(o)...)
 	asserts = append(asserts, Not(o.Goal))
-	asserts = append(asserts, p.unfoldInstances([]*Term{o.Goal}, 2, 40)...)
+	asserts = append(asserts, p.unfoldInstances([]*Term{o.Goal}, unfoldFuel, 40)...)
 	if !o.noLemmas {
 		asserts = append(asserts, p.lemmaAxioms()...)
 	}
@@ -539,3 +539,12 @@ func (p *Prog) dischargeAll(obls []*Obligation, timeout time.Duration, dir strin
 	}
 	wg.Wait()
 }
+
+var unfoldFuel = func() int {
+	if v := os.Getenv("GOVC_FUEL"); v != "" {
+		n := 0
+		fmt.Sscanf(v, "%d", &n)
+		return n
+	}
+	return 1
+}()
